@@ -85,12 +85,18 @@ def run(sid, checks, tier='quick'):
         assert rc == 0, out
         rc, out = sh(['git', '-C', wt, 'apply', '--whitespace=nowarn', patch])
         assert rc == 0, out
-        # a private copy of the Lean project (tables are regenerated from the changed tree there)
+        # a private snapshot of the machinery: the Lean project (tables are regenerated from the changed tree there)
+        # AND the harness, so that edits made to /verif while the checks run cannot mix two versions
         lean_copy = wt + '_lean'
         sh(['cp', '-r', os.path.join(VERIF, 'lean'), lean_copy])
+        snap = wt + '_verif'
+        os.makedirs(snap)
+        sh(['cp', '-r', os.path.join(VERIF, 'harness'), os.path.join(snap, 'harness')])
+        for f in ('check', 'known_findings.txt', 'properties.jsonl'):
+            shutil.copy(os.path.join(VERIF, f), os.path.join(snap, f))
         env = dict(os.environ, REPO=wt, VERIF_LEAN_DIR=lean_copy, VERIF_OUT_DIR=wt + '_out')
         for c in checks:
-            rc, out = sh([os.path.join(VERIF, 'check'), c, '--tier', tier], cwd=VERIF, timeout=3600, env=env)
+            rc, out = sh([os.path.join(snap, 'check'), c, '--tier', tier], cwd=snap, timeout=3600, env=env)
             vio = [l for l in out.splitlines() if l.startswith('VIOLATION')]
             fail = [l for l in out.splitlines() if 'failing input' in l or 'disagreement:' in l or 'broken:' in l]
             results[c] = {'exit': rc, 'violation': vio[:1], 'detail': [f[:300] for f in fail[:3]]}
@@ -99,6 +105,7 @@ def run(sid, checks, tier='quick'):
         shutil.rmtree(wt, ignore_errors=True)
         shutil.rmtree(wt + '_lean', ignore_errors=True)
         shutil.rmtree(wt + '_out', ignore_errors=True)
+        shutil.rmtree(wt + '_verif', ignore_errors=True)
     return results
 
 
